@@ -81,8 +81,12 @@ def roundtrip(obj, protocol):
         try:
             save(obj, filename=name, pickle_protocol=protocol)
             return load(filename=name)
-        except TypeError:
-            if isinstance(name, str):
+        except TypeError as e_t:
+            import traceback as _tb
+            last = _tb.extract_tb(e_t.__traceback__)[-1]
+            # only a DELIBERATE rejection (an explicit `raise TypeError(...)` statement of the library): a TypeError that falls out of an expression (`"..." + filename`) is a
+            # path-like name breaking code that was written for strings
+            if isinstance(name, str) or not (last.line or "").strip().startswith("raise"):
                 raise
             # the documented type of `filename` is str: an implementation that rejects a path-like object with TypeError rejects a wrong type (no clause of the property is
             # about the FORM of the file name); the round trip is then made through the same name as a string
@@ -133,6 +137,15 @@ def concept_case(out: Outcome, rng, cls: str, with_cb: bool, protocol: int, thor
                 out.count("private_state_differs_after_load")
         except RecursionError:
             pass
+        # ... but everything the class exposes PUBLICLY (by enumeration of its public properties: BOCD's whole run-length table, ADWIN's buckets, counters) is observable state
+        try:
+            pa, pl = dets.public_reads(a.det), dets.public_reads(loaded)
+            diff = [nm for nm in sorted(pa) if nm in pl and pa[nm] != pl[nm] and nm != "callbacks"]
+            if diff and dets.public_reads(roundtrip(a.det, protocol)).get(diff[0]) == pl[diff[0]]:
+                out.violation(f"{cls}: the public attribute `{diff[0]}` of the loaded detector reads {str(pl[diff[0]])[:100]}, the saved one's {str(pa[diff[0]])[:100]}", rep)
+                return
+        except Exception:  # noqa: BLE001
+            out.count("public_attribute_comparison_after_load_failed")
         if with_cb and (loaded.callbacks[0].detector is not loaded):
             out.violation(f"{cls}: the loaded callback no longer refers to the loaded detector", rep)
             return
